@@ -84,7 +84,7 @@ def _count(path, op: str, child: str) -> int:
 
 
 def _whole(path, op: str, child: str) -> bool:
-    return any(e.kind == "op" and e.op == op and not e.failed and e.whole
+    return any(e.kind == "op" and e.op == op and not e.failed and (e.whole or getattr(e, "sofar", False))
                and isinstance(e.target, Child) and e.target.path == child for e in path.events)
 
 
@@ -625,6 +625,11 @@ def rule_SL(run: Run) -> RuleResult:
                     detail = f"{op} path applies {others[0].op} to branch '{others[0].target.path}'"
             if cname == "CaseWhen":
                 for p in normal(run.paths(cls, op, unroll=2)):
+                    # on the path that ends at the default every condition has been consulted (and failed): there the
+                    # whole list is what the choice depended on
+                    chose_case = any(e.kind == "op" and isinstance(e.target, Child) and e.target.path == "cases[*].1" and not e.failed for e in p.events)
+                    if not chose_case:
+                        continue
                     for e in p.events:
                         if e.kind == "op" and isinstance(e.target, Child) and e.target.path == "cases[*].0" and e.whole:
                             ok = False
